@@ -89,6 +89,23 @@ def check_message(m):
             vs.append(V("AVPs follow the header in order", f"body-order/how={m['how']}", f"got {got.hex()[:200]} want {ref.hex()[:200]}"))
     if glen != len(got) and not any(v.sig.startswith("header/len") for v in vs):
         vs.append(V("Message Length equals the serialised size", f"msg-length/how={m['how']}", f"field {glen}, size {len(got)}"))
+    if m.get("derive") and not vs:
+        from bromelia.base import DiameterAnswer, DiameterRequest
+        try:
+            with common.process_tz(m.get("tz")):
+                objs = [gens.build_node(n) for n in m["avps"]]
+                second = (DiameterAnswer if m["derive"] == "answer" else DiameterRequest)(header=msg.header, avps=objs)
+                d2 = second.dump()
+                l2 = second.header.get_length()
+        except (Exception,) + errors as e:
+            return "ok", None, [V("a message built from another message's header serialises", f"derived/{m['derive']}/raises/{type(e).__name__}", repr(e))]
+        if d2[20:] != ref[20:]:
+            vs.append(V("AVPs follow the header in order", f"derived/{m['derive']}/body", f"{d2[20:].hex()[:120]} != {ref[20:].hex()[:120]}"))
+        if l2 != len(d2) or int.from_bytes(d2[1:4], "big") != len(d2):
+            vs.append(V("Message Length equals the serialised size", f"derived/{m['derive']}/msg-length",
+                        f"field {int.from_bytes(d2[1:4], 'big')} / {l2}, size {len(d2)} (source message was {len(got)} bytes)"))
+        if d2[0:1] != ref[0:1] or d2[5:20] != ref[5:20]:
+            vs.append(V("20-byte header carries the fields as set", f"derived/{m['derive']}/header-fields", f"{d2[:20].hex()} from {ref[:20].hex()}"))
     if len(ref) % 4:
         raise AssertionError("reference produced unaligned message")
     return "ok", None, vs
@@ -135,6 +152,8 @@ def _collect(shard, seed, n_msgs, sweep_vals):
     def body(m):
         status, why, vs = check_message(m)
         feats = gens.node_features(m["avps"])
+        if m.get("derive"):
+            feats = feats | {"built-from-another-message's-header"}
         col.record(m, vs, nontrivial=bool(feats & NT) and status == "ok", classes=sorted(feats) + ["how=" + m["how"]],
                    discard=why)
 
